@@ -68,7 +68,7 @@ func rulesC17(c *Ctx) {
 				qObj := p.Src(unparen(split.Cond).(*ast.BinaryExpr).X)
 				onQueue := func(call *ast.CallExpr, a Atom) bool { return Recv(call) != nil && p.Src(Recv(call)) == qObj }
 				userArg := func(call *ast.CallExpr, a Atom) bool {
-					if len(call.Args) != 1 {
+					if len(call.Args) < 1 {
 						return false
 					}
 					uc, ok := unparen(call.Args[0]).(*ast.CallExpr)
@@ -85,7 +85,7 @@ func rulesC17(c *Ctx) {
 				stS := p.StateAt(fn, split)
 				if stS != nil {
 					for _, t := range p.chain(Term{E: unparen(split.Cond).(*ast.BinaryExpr).X, Env: stS.Env, Idx: -1}) {
-						if call, ok := unparen(t.E).(*ast.CallExpr); ok && len(call.Args) == 1 && p.Src(call.Args[0]) == qn {
+						if call, ok := unparen(t.E).(*ast.CallExpr); ok && len(call.Args) >= 1 && p.Src(call.Args[0]) == qn {
 							if _, isFn := p.fieldSel(call.Fun, mgr+".queueFn"); isFn {
 								qdef = true
 							}
@@ -172,12 +172,12 @@ func rulesC17(c *Ctx) {
 			}
 			if p.isNilExpr(rs.Results[0]) {
 				nOK++
-				set := p.DoneCall(ex.State, func(call *ast.CallExpr) bool { return len(call.Args) == 1 && !p.IsEmptyString(call.Args[0]) }, "objects.Application.SetQueuePath")
+				set := p.DoneCall(ex.State, func(call *ast.CallExpr) bool { return len(call.Args) >= 1 && !p.IsEmptyString(call.Args[0]) }, "objects.Application.SetQueuePath")
 				nonEmpty := p.Holds(ex.State, p.CmpAtom(func(op token.Token, x, y Term) bool { return op == token.NEQ && p.IsEmptyString(y.E) }))
 				c.Check("C17.a", "success only with a non-empty queue set on the application", rs, set != nil && nonEmpty, "PlaceApplication returns nil without SetQueuePath(queueName) under queueName != \"\"")
 			} else {
 				nErr++
-				cleared := p.DoneCall(ex.State, func(call *ast.CallExpr) bool { return len(call.Args) == 1 && p.IsEmptyString(call.Args[0]) }, "objects.Application.SetQueuePath")
+				cleared := p.DoneCall(ex.State, func(call *ast.CallExpr) bool { return len(call.Args) >= 1 && p.IsEmptyString(call.Args[0]) }, "objects.Application.SetQueuePath")
 				c.Check("C17.a", "failure clears the queue path and carries a reason", rs, cleared != nil, "PlaceApplication returns an error without SetQueuePath(\"\")")
 			}
 		}
@@ -202,7 +202,7 @@ func rulesC17(c *Ctx) {
 			nSucc++
 			st := ex.State
 			filt := p.Holds(st, p.CallAtom(true, func(call *ast.CallExpr, a Atom) bool {
-				if len(call.Args) != 1 {
+				if len(call.Args) < 1 {
 					return false
 				}
 				uc, ok := unparen(call.Args[0]).(*ast.CallExpr)
@@ -297,7 +297,7 @@ func rulesC17(c *Ctx) {
 			for _, d := range ex.State.Done {
 				if as, ok := d.(*ast.AssignStmt); ok && len(as.Rhs) == 1 {
 					if call, ok := unparen(as.Rhs[0]).(*ast.CallExpr); ok {
-						if id, ok := unparen(call.Fun).(*ast.Ident); ok && id.Name == "append" && len(call.Args) == 2 {
+						if id, ok := unparen(call.Fun).(*ast.Ident); ok && id.Name == "append" && len(call.Args) >= 2 {
 							last = p.Src(call.Args[1])
 						}
 					}
@@ -346,7 +346,7 @@ func rulesC17(c *Ctx) {
 					break
 				}
 			}
-			acl := p.Holds(st, p.CallAtom(true, func(cl *ast.CallExpr, a Atom) bool { return len(cl.Args) == 1 && p.isParam(fn, cl.Args[0], 1) }, "objects.Queue.CheckSubmitAccess"))
+			acl := p.Holds(st, p.CallAtom(true, func(cl *ast.CallExpr, a Atom) bool { return len(cl.Args) >= 1 && p.isParam(fn, cl.Args[0], 1) }, "objects.Queue.CheckSubmitAccess"))
 			notLeaf := p.Holds(st, p.CallAtom(false, nil, "objects.Queue.IsLeafQueue"))
 			c.Check("C17.d", "queue created only with submit access on the existing ancestor", call, acl, "NewDynamicQueue reached without the fact queue.CheckSubmitAccess(user); facts: %v", p.FactStrings(st))
 			c.Check("C17.d", "queue created only under a non-leaf", call, notLeaf, "NewDynamicQueue reached without the fact !queue.IsLeafQueue(); facts: %v", p.FactStrings(st))
